@@ -65,8 +65,13 @@ def check(ctx):
     gs = mb.summarize(gf, self_cls=gc)
     F = Frames(mb)
     res = fname("results_")
-    main = [(pc, t, n) for pc, t, n in gs.returns if t[0] == "call"]
-    early = [(pc, t, n) for pc, t, n in gs.returns if t[0] == "tuple"]
+    NOTHING_OUT = ("cmp", "==", ("sub", ("attr", ("param", "nonreporting_units"), "shape"), ("const", 0)), ("const", 0))
+
+    def is_shortcut(pc):
+        return any(c == NOTHING_OUT and pol for c, pol in pc)
+
+    main = [(pc, t, n) for pc, t, n in gs.returns if not is_shortcut(pc) and t[0] == "call"]
+    early = [(pc, t, n) for pc, t, n in gs.returns if is_shortcut(pc) or t[0] == "tuple"]
     ctx.sites("C03.R3", len(main), 1, "main return of the gaussian aggregate interval function")
     for pc, t, n in main:
         for i, side in enumerate(("lower", "upper")):
@@ -104,9 +109,10 @@ def check(ctx):
         cond = pc[-1] if pc else None
         okc = cond is not None and cond[1] and cond[0] == ("cmp", "==", ("sub", ("attr", ("param", "nonreporting_units"), "shape"), ("const", 0)), ("const", 0))
         vals = []
-        for x in t[1]:
+        from ..frames import vector_value
+        for x in (t[1] if t[0] == "tuple" else t[2][:2]):
             try:
-                vals.append(F.col(x[1], x[2]) if x[0] == "sub" else None)
+                vals.append(vector_value(F, x))
             except AnalysisError:
                 vals.append(None)
         oke = okc and all(v is not None for v in vals)
